@@ -16,7 +16,7 @@ template <typename T> MV ofT(DataType t, const T &x) { MV m; m.t = t; memcpy(&m.
 MV ofS(const std::string &s) { MV m; m.t = DataType::String; m.s = s; return m; }
 
 struct H {
-    Ctx &c; Rng &r; File f; Block b; DataFrame df, df2; bool two = false; std::string path; std::vector<Column> cols; std::vector<std::vector<MV>> tab; uint64_t ord = 1;
+    Ctx &c; Rng &r; File f; Block b; DataFrame df, df2; bool two = false, big = false; std::string path; std::vector<Column> cols; std::vector<std::vector<MV>> tab; uint64_t ord = 1;
     H(Ctx &cx) : c(cx), r(cx.rng) {}
     Variant gen(DataType t) {
         uint64_t o = ord++; bool ex = r.chance(0.08);
@@ -55,6 +55,10 @@ struct H {
             c.op("readCells | row=" + str(row) + " n=" + str(names.size()));
             std::vector<Cell> cs = df.readCells(row, names); bool ok = cs.size() == names.size(); for (size_t k = 0; ok && k < cs.size(); k++) ok = of(cs[k]) == tab[row][idx[k]];
             c.check(ok, K("readCells"), [&] { return "readCells of row " + str(row) + " differs from the model (" + when + ")"; });
+            // cells as they come back from readCells (carrying names, in request order) written back unchanged: nothing may change
+            if (ok && f.fileMode() != FileMode::ReadOnly && r.chance(0.5)) { c.op("writeCells of the cells just read | row=" + str(row) + " n=" + str(cs.size())); df.writeCells(row, cs); c.count("cells_written_back", (long)cs.size());
+                std::vector<Variant> back = df.readRow(row); bool same = back.size() == cols.size(); for (size_t j = 0; same && j < cols.size(); j++) same = of(back[j]) == tab[row][j];
+                c.check(same, K("writeCells-readback-roundtrip"), [&] { return "writing the cells returned by readCells(" + str(row) + ", names in request order) back changed row " + str(row) + " (" + when + ")"; }); }
         } catch (std::exception &e) { c.check(false, K("readCell-exception"), std::string("readCell(s) threw: ") + e.what() + " (" + when + ")"); }
     }
     template <typename T> void check_column_T(size_t j, const char *when) {
@@ -89,11 +93,12 @@ struct H {
             c.check(ok, K("schema"), std::string("column schema changed (") + when + ")"); c.check(df.rows() == nrows(), K("rows"), [&] { return "rows() = " + str(df.rows()) + " model " + str(nrows()) + " (" + when + ")"; }); }
         catch (std::exception &e) { c.check(false, K("schema-exception"), e.what()); }
     }
-    void check_all(const char *when) { check_schema(when); for (size_t i = 0; i < nrows(); i++) check_row(i, when); for (size_t j = 0; j < cols.size(); j++) check_column(j, when); if (nrows()) check_cells(r.u(nrows()), when); }
+    void check_all(const char *when) { check_schema(when); if (big) { for (int q = 0; q < 12 && nrows(); q++) check_row(q < 4 ? std::min(nrows() - 1, (size_t)(1022 + q)) : r.u(nrows()), when); for (size_t j = 0; j < cols.size(); j++) check_column(j, when); return; }
+        for (size_t i = 0; i < nrows(); i++) check_row(i, when); for (size_t j = 0; j < cols.size(); j++) check_column(j, when); if (nrows()) check_cells(r.u(nrows()), when); }
 
     // ---- write paths
     template <typename T> void write_column_T(size_t j) {
-        DataType t = cols[j].dtype; size_t off = r.u(nrows()); size_t n = 1 + r.u(nrows() - off); size_t extra = r.u(3); bool explicit_count = r.chance(0.5);
+        DataType t = cols[j].dtype; size_t off = r.u(nrows()); size_t n = 1 + r.u(nrows() - off); if (big && r.chance(0.7)) { off = r.u(20); n = nrows() - off - r.u(5); } size_t extra = r.u(3); bool explicit_count = r.chance(0.5);
         std::vector<T> v; std::vector<MV> ms; for (size_t i = 0; i < n + (explicit_count ? extra : 0); i++) { Variant x = gen(t); v.push_back(x.get<T>()); ms.push_back(of(x)); }
         c.op(std::string("writeColumn ") + dtname(t) + (explicit_count ? " explicit-count" : " whole-vector") + " | off=" + str(off) + " n=" + str(n));
         if (r.chance(0.5)) df.writeColumn((unsigned)j, v, off, explicit_count ? n : 0); else df.writeColumn(cols[j].name, v, off, explicit_count ? n : 0);
@@ -103,17 +108,18 @@ struct H {
     void write_column(size_t j) {
         if (!nrows()) return;
         switch (cols[j].dtype) { case DataType::Int32: write_column_T<int32_t>(j); break; case DataType::UInt32: write_column_T<uint32_t>(j); break; case DataType::Int64: write_column_T<int64_t>(j); break; case DataType::UInt64: write_column_T<uint64_t>(j); break; case DataType::Double: write_column_T<double>(j); break;
-        case DataType::String: { size_t off = r.u(nrows()); size_t n = 1 + r.u(nrows() - off); std::vector<std::string> v; for (size_t i = 0; i < n; i++) v.push_back(gen(DataType::String).get<std::string>()); c.op("writeColumn String | off=" + str(off) + " n=" + str(n)); df.writeColumn(cols[j].name, v, off); for (size_t i = 0; i < n; i++) tab[off + i][j] = ofS(v[i]); check_column(j, "after writeColumn"); check_row(off, "after writeColumn"); break; }
+        case DataType::String: { size_t off = r.u(nrows()); size_t n = 1 + r.u(nrows() - off); if (big && r.chance(0.7)) { off = r.u(20); n = nrows() - off - r.u(5); } std::vector<std::string> v; for (size_t i = 0; i < n; i++) v.push_back(gen(DataType::String).get<std::string>()); c.op("writeColumn String | off=" + str(off) + " n=" + str(n)); df.writeColumn(cols[j].name, v, off); for (size_t i = 0; i < n; i++) tab[off + i][j] = ofS(v[i]); check_column(j, "after writeColumn"); check_row(off, "after writeColumn"); break; }
         default: break; }
     }
 
     void op() {
         flip();
         int k = (int)r.weighted({3, nrows() ? 5 : 0, nrows() ? 5 : 0, nrows() ? 4 : 0, nrows() ? 4 : 0, 1});
+        if (big) k = (int)r.weighted({1, 0, nrows() ? 1 : 0, 0, nrows() ? 6 : 0, 1});
         try {
             switch (k) {
             case 0: {   // row count: grow / shrink / regrow
-                size_t n = r.chance(0.4) ? nrows() + 1 + r.u(4) : r.u(nrows() + 2); if (n > 40) n = 40;
+                size_t n = r.chance(0.4) ? nrows() + 1 + r.u(4) : r.u(nrows() + 2); if (n > 40 && !big) n = 40; if (big) n = 1100 + r.u(1200);
                 c.op(std::string("rows ") + (n > nrows() ? "grow" : n < nrows() ? "shrink" : "same") + " | " + str(nrows()) + "->" + str(n));
                 df.rows(n); size_t old = nrows(); tab.resize(n); for (size_t i = old; i < n; i++) { tab[i].clear(); for (auto &cd : cols) tab[i].push_back(zero(cd.dtype)); }
                 check_all("after rows()"); break; }
@@ -138,11 +144,13 @@ struct H {
             c.count("prefix_name_schemas");
         } else
         for (size_t j = 0; j < nc; j++) cols.push_back({"col" + str(j) + (r.chance(0.2) ? " \xc3\xa4" : ""), r.pick(units), r.pick(TYPES)});
+        big = c.index % 10 == 7; if (big) cols[0].dtype = DataType::String;
         c.op("createDataFrame | columns=" + str(nc)); for (auto &cd : cols) c.fp(dtname(cd.dtype));
         df = b.createDataFrame("frame", "t", cols, r.chance(0.5) ? Compression::Auto : Compression::DeflateNormal);
+        if (big) { c.count("big_frames"); c.fp("big"); }   // more than 1024 rows: whole-column transfers cross any internal block size
         two = r.chance(0.6); if (two) df2 = b.getDataFrame("frame");
         check_schema("fresh");
-        int n = (int)r.range(12, 35);
+        int n = big ? (int)r.range(5, 9) : (int)r.range(12, 35);
         for (int i = 0; i < n; i++) { op(); if (i % 5 == 4) check_all("periodic"); }
         check_all("final");
         c.nontrivial = c.checks > 20; df = DataFrame(); df2 = DataFrame(); b = nix::none; f.close();
